@@ -420,6 +420,41 @@ func c08LongOps(h *History) []merkOp {
 	return append(ops, block...)
 }
 
+// c08Big: a longest chain of n blocks above genesis (more than the default page size 2000), a stale sibling every
+// 500 heights and one orphan; walked with page sizes around 2000, the chain length and far above it.
+func c08Big(n int, thorough bool) (*History, []merkOp) {
+	h := &History{}
+	prev := genesisID
+	for i := 0; i < n; i++ {
+		id := 2 + i
+		h.Subs = append(h.Subs, Sub{ID: id, Prev: prev, Bits: bitsW2, Ver: 1, Merkle: 100 + id, TS: uint32(1600000000 + i), Nonce: uint32(i)})
+		if (i+1)%500 == 0 {
+			sid := 100000 + i
+			h.Subs = append(h.Subs, Sub{ID: sid, Prev: prev, Bits: bitsW2, Ver: 1, Merkle: 100 + sid, TS: uint32(1700000000 + i), Nonce: uint32(i)})
+		}
+		prev = id
+	}
+	h.Subs = append(h.Subs, Sub{ID: 200000, Prev: 299999, Bits: bitsW2, Ver: 1, Merkle: 200100, TS: 1800000000, Nonce: 1})
+	ops := subOps(h.Subs)
+	blocks := n + 1
+	sizes := []int{1999, 2000, 2001, blocks, blocks + 2, 100000}
+	if thorough {
+		sizes = append(sizes, 7, 500, 1000, 2002, blocks - 1, blocks + 1, 4000)
+	}
+	for _, b := range sizes {
+		ops = append(ops, qop("w", strconv.Itoa(b)))
+	}
+	ops = append(ops, qop("w", "abs"))
+	// single pages with a key and a size above the number of blocks left / above 2000
+	for _, k := range []int{2, n - 2001, n} {
+		if k >= 2 {
+			ops = append(ops, qop("p", fmt.Sprintf("2001:r%d", 100+k)), qop("p", fmt.Sprintf("100000:r%d", 100+k)))
+		}
+	}
+	ops = append(ops, qop("p", fmt.Sprintf("2001:r%d", 100+100000+499)), qop("p", "2001:r200100"), qop("p", "2147483647:-"))
+	return h, ops
+}
+
 func runC08(c *Ctx) error {
 	s, err := NewStack(StackOpts{Dir: c.TmpDir("c08")})
 	if err != nil {
@@ -540,6 +575,13 @@ func runC08(c *Ctx) error {
 	}
 	for n := 1; n <= c.Pick(8, 14); n++ {
 		if err := static(c08ForkEverywhere(rng, n), "fork-at-every-height", true, n); err != nil {
+			return err
+		}
+	}
+	// more longest-chain blocks than the default page size
+	{
+		h, ops := c08Big(c.Pick(2104, 4207), c.Thorough())
+		if err := r.run(headOf(h), ops, "chain-longer-than-2000"); err != nil {
 			return err
 		}
 	}
